@@ -1324,9 +1324,19 @@ impl Archive {
                         Ok(filenames) => {
                             let mut entries = Vec::new();
 
+                            // Names are case-insensitive and `/` equals `\`, so a listfile
+                            // can name one table entry in several spellings: list it once
+                            let mut listed_entries = std::collections::HashSet::new();
+
                             // Look up each file
                             for filename in filenames {
                                 if let Some(file_info) = self.find_file(&filename)? {
+                                    if !listed_entries
+                                        .insert((file_info.hash_index, file_info.block_index))
+                                    {
+                                        continue;
+                                    }
+
                                     entries.push(FileEntry {
                                         name: filename,
                                         size: file_info.file_size,
